@@ -175,7 +175,7 @@ pub fn record(args: &[String]) {
     for i in 0..n {
         match i % 3 {
             0 => {
-                let len = if r.chance(1, 10) { 0 } else { r.below(12) };
+                let len = if r.chance(1, 10) { 0 } else if i % 150 == 0 { 1000 + r.below(500) } else { r.below(12) };
                 let text0: String = (0..len).map(|_| match r.below(6) { 0 => '\0', 1 => char::from_u32(r.below(0x20) as u32).unwrap(), 2 => char::from_u32(0x20 + r.below(0x5f) as u32).unwrap(), 3 => char::from_u32(0x80 + r.below(0x700) as u32).unwrap_or('x'), 4 => char::from_u32(0x800 + r.below(0xd000) as u32).unwrap_or('y'), _ => char::from_u32(0x10000 + r.below(0xfffff) as u32).unwrap_or('z') }).collect();
                 let text0 = if r.chance(1, 8) { format!("\u{feff}{}", text0) } else { text0 };
                 let text = make_writable(&text0);
